@@ -210,6 +210,7 @@ struct SeqRun
     Violation   viol;  // the violation this run reports (focus property, or the first one without focus)
     Violation   other; // first tolerated violation of another property
     bool        stop{false};
+    bool        stop_after_step{false};
     std::string focus;
     RunStats    st;
     int         step_no{-1};
@@ -268,7 +269,7 @@ struct SeqRun
         }
         st.bump(std::string("tolerated.") + check);
         if (!adoptable)
-            stop = true; // cut short by another property's violation
+            stop_after_step = true; // the model cannot follow: finish this step's remaining checks, then end the run
         return stop;
     }
     bool failed() const { return stop; }
@@ -481,10 +482,10 @@ struct SeqRun
             auto rj = rejected_deadline.find(k);
             if (rj != rejected_deadline.end() && rj->second > now)
             {
-                fail({"C04", "C09"}, "ttl.expired_served_after_rejected_insert", base + "expired (a rejected insert extended its life)");
+                fail({"C04", "C09", "C01"}, "ttl.expired_served_after_rejected_insert", base + "expired (a rejected insert extended its life)");
                 return;
             }
-            fail({"C04"}, "ttl.expired_served", base + "its TTL elapsed at or before now=" + std::to_string(now));
+            fail({"C04", "C01"}, "ttl.expired_served", base + "its TTL elapsed at or before now=" + std::to_string(now));
             return;
         }
         const char* w = why == Gone::never ? "never inserted" : why == Gone::erased ? "erased" : why == Gone::evicted ? "evicted" : "cleared";
@@ -992,7 +993,7 @@ struct SeqRun
         {
             if (!missing.empty())
             {
-                fail(loss_props({"C03"}), "retention.lost_on_nonevicting_insert",
+                fail(tr.policy == Policy::rr ? loss_props({"C03", "C15"}) : loss_props({"C03"}), "retention.lost_on_nonevicting_insert",
                      std::string(created ? "insert into a non-full cache" : updated ? "update" : "rejected insert") +
                          " removed live entries " + kstr(missing), true);
                 adopt_missing();
@@ -1557,6 +1558,17 @@ struct SeqRun
                         return;
                     R.reset();
                 }
+                if (R && tr.purge_every_call)
+                {
+                    // a range call of any length, the empty one included, is a call: size() is exact after it
+                    Obs ro = read_obs(*R);
+                    eval("C02");
+                    if (ro.size - (int64_t)live.size() > doa_step || ro.size < (int64_t)live.size())
+                        if (fail({"C02", "C17"}, "observer.range_purge_incomplete",
+                                 std::string(op_name(op.kind)) + " of " + std::to_string(singles.size()) + " elements left size()=" +
+                                     std::to_string(ro.size) + " with " + std::to_string(live.size()) + " live keys", true))
+                            return;
+                }
                 rres = rr;
             }
             else
@@ -1727,11 +1739,13 @@ struct SeqRun
         B = fresh(cfg);
         (void)any_splice;
 
-        for (size_t i = 0; i < plan.steps.size() && !failed(); ++i)
+        for (size_t i = 0; i < plan.steps.size() && !failed() && !stop_after_step; ++i)
         {
             step_no = (int)i;
             run_step(plan.steps[i]);
         }
+        if (stop_after_step)
+            stop = true;
         step_no = (int)plan.steps.size();
 
         // final sweep: every key of the universe
